@@ -6,6 +6,28 @@ COMMON_ASSUMPTIONS = [
     "x86_64 / 64-bit limbs only; no 32-bit target is installed",
     "R1 (small word size) establishes the transcribed algorithm at W in {2,3,4}; word-size independence is an argument, not a theorem",
 ]
+def M(spec, cfg, **kw):
+    return dict(spec=spec, cfg=cfg, **kw)
+
+
+Q = ("quick", "thorough")
+T = ("thorough",)
+R1 = {
+    "C02": [
+        M("algo/KnuthD_MC.tla", "algo/KnuthD_ct_W2L3.cfg"),
+        M("algo/KnuthD_MC.tla", "algo/KnuthD_ct_W2L4.cfg"),
+        M("algo/KnuthD_MC.tla", "algo/KnuthD_vartime_W2L4.cfg"),
+        M("algo/KnuthD_MC.tla", "algo/KnuthD_limb_W3L3.cfg"),
+        M("algo/KnuthD_MC.tla", "algo/KnuthD_vacuity.cfg", expect_violation="NoAddBack"),
+        M("algo/KnuthD_MC.tla", "algo/KnuthD_vacuity_vt.cfg", expect_violation="NoAddBack"),
+        M("algo/KnuthD_MC.tla", "algo/KnuthD_ct_W3L3.cfg", tiers=T, workers=12),
+        M("algo/KnuthD_MC.tla", "algo/KnuthD_vartime_W3L4.cfg", tiers=T, workers=12),
+        M("algo/KnuthD_MC.tla", "algo/KnuthD_ct_W4L2Y2.cfg", tiers=T),
+        M("algo/KnuthD_MC.tla", "algo/KnuthD_vartime_W2L5Y3.cfg", tiers=T, workers=12),
+        M("algo/KnuthD_MC.tla", "algo/KnuthD_vartime_W2L5Y4.cfg", tiers=T, workers=12),
+        M("algo/KnuthD_MC.tla", "algo/KnuthD_limb_W4L3Y1.cfg", tiers=T),
+    ],
+}
 PROPS = {
-    "C%02d" % i: dict(bin="c%02d" % i, r1=[], assumptions=COMMON_ASSUMPTIONS) for i in range(2, 21)
+    "C%02d" % i: dict(bin="c%02d" % i, r1=R1.get("C%02d" % i, []), assumptions=COMMON_ASSUMPTIONS) for i in range(2, 21)
 }
